@@ -58,11 +58,7 @@ Definition func_eqb (a b : func) : bool :=
           2  the output equals the REPAIRED model's output
           4  the verified validator accepts (input, output)
           8  the as-coded and the repaired model agree on this input
-         16  [copy-prop] repairing only the source guard already gives the repaired output
-             [dce]       repairing only the phi-operand rule already gives the repaired output
-         32  [copy-prop] repairing only the for-target rule already gives the repaired output
-             [dce]       repairing only the purity rule already gives the repaired output
-         64  [dce]       repairing only the for-target rule already gives the repaired output
+         16  [copy-prop] the source guard (the one repair not in /repo) changes the output on this input
         128  the validator accepts (input, repaired model's output) *)
 Definition step_code (c : case7) : nat :=
   let '(ps, P, fn, fn') := c in
@@ -73,16 +69,13 @@ Definition step_code (c : case7) : nat :=
       let fx := copyprop_fixed fn in
       (b2n (block_eqb ac out) 1 + b2n (block_eqb fx out) 2 +
        b2n (validate_copyprop VFUEL fn fn') 4 + b2n (block_eqb ac fx) 8 +
-       b2n (block_eqb (cp true false fn) fx) 16 + b2n (block_eqb (cp false true fn) fx) 32 +
+       b2n (negb (block_eqb ac fx)) 16 +
        b2n (validate_copyprop VFUEL fn (with_body fn fx)) 128)%nat
   | PDce =>
       let ac := dce_as_coded P fn in
       let fx := dce_fixed P fn in
       (b2n (block_eqb ac out) 1 + b2n (block_eqb fx out) 2 +
        b2n (validate_dce VFUEL fn fn') 4 + b2n (block_eqb ac fx) 8 +
-       b2n (block_eqb (dce (Fixes true false false) P fn) fx) 16 +
-       b2n (block_eqb (dce (Fixes false true false) P fn) fx) 32 +
-       b2n (block_eqb (dce (Fixes false false true) P fn) fx) 64 +
        b2n (validate_dce VFUEL fn (with_body fn fx)) 128)%nat
   | PConstFold =>
       (* no executable model of PartialEval: the output is validated only *)
